@@ -996,7 +996,20 @@ pub fn eq_probes(c: &str) -> Vec<String> {
     let mut out: Vec<String> = vec![];
     // every byte offset of a text up to 48 bytes; the first and last 24 offsets of a longer one
     // (the number of probes stays linear in the length of the text)
-    let pos: Vec<usize> = if c.len() <= 48 { (0..=c.len()).collect() } else { (0..24).chain(c.len() - 24..=c.len()).collect() };
+    // ... plus the offsets around every power of two (a fixed-size buffer that truncates has its
+    // boundary there: the value must not equal its own first 32 / 64 / 128 ... bytes)
+    let mut pos: Vec<usize> = if c.len() <= 48 { (0..=c.len()).collect() } else { (0..24).chain(c.len() - 24..=c.len()).collect() };
+    let mut p2 = 16usize;
+    while p2 < c.len() + 2 {
+        for q in [p2 - 1, p2, p2 + 1] {
+            if q <= c.len() {
+                pos.push(q);
+            }
+        }
+        p2 *= 2;
+    }
+    pos.sort();
+    pos.dedup();
     for &i in pos.iter().filter(|&&i| i < c.len()) {
         out.push(c[..i].to_string());
     }
@@ -1269,8 +1282,79 @@ impl Space for PairSpace {
     }
 }
 
+/// Bases of the near-pair histories (space E3.near_pairs): after a call on a base x, the checker
+/// runs on every y that differs from x in one byte or in two ADJACENT bytes (over `[a-z0-9-]`).
+/// A memo keyed on a weak digest of the text -- a polynomial hash with a small multiplier such as
+/// 31, 33 or 37 collides exactly on such pairs: (+1, -31), (+2, -62) -- or on a truncated or
+/// sampled part of it, answers y with the result for x.
+pub const NEAR_PAIR_BASES: [&str; 10] = ["en-fonipa", "sr-Latn", "an", "ak", "en-US", "zh-Hant-TW", "de-1996", "en-u-ca-buddhist", "und-x-priv", "en-t-de-h0-hybrid"];
+pub const NEAR_PAIR_ALPHABET: &[u8] = b"abcdefghijklmnopqrstuvwxyz0123456789-";
+
+pub struct NearPairSpace {
+    pub label: String,
+}
+impl NearPairSpace {
+    fn positions() -> Vec<(usize, usize)> {
+        let mut v = vec![];
+        for (bi, b) in NEAR_PAIR_BASES.iter().enumerate() {
+            for p in 0..b.len() {
+                v.push((bi, p));
+            }
+        }
+        v
+    }
+}
+impl Space for NearPairSpace {
+    fn name(&self) -> String {
+        self.label.clone()
+    }
+    fn outer_len(&self) -> u64 {
+        Self::positions().len() as u64
+    }
+    fn visit(&self, outer: u64, buf: &mut Vec<u8>, f: &mut dyn FnMut(&[u8])) {
+        let (bi, p) = Self::positions()[outer as usize];
+        let base = NEAR_PAIR_BASES[bi].as_bytes();
+        let a = NEAR_PAIR_ALPHABET;
+        let mut pair = |y: &[u8], buf: &mut Vec<u8>| {
+            buf.clear();
+            buf.extend_from_slice(base);
+            f(buf);
+            buf.clear();
+            buf.extend_from_slice(y);
+            f(buf);
+        };
+        // one byte
+        for &c in a {
+            if c != base[p] {
+                let mut y = base.to_vec();
+                y[p] = c;
+                pair(&y, buf);
+            }
+        }
+        // two adjacent bytes
+        if p + 1 < base.len() {
+            for &c in a {
+                for &d in a {
+                    if c != base[p] && d != base[p + 1] {
+                        let mut y = base.to_vec();
+                        y[p] = c;
+                        y[p + 1] = d;
+                        pair(&y, buf);
+                    }
+                }
+            }
+        }
+    }
+    fn describe(&self) -> Value {
+        json!({"kind": "histories of two calls (x, y) on one thread: x one of the bases, y = x with one byte or two adjacent bytes replaced by every value of [a-z0-9-]", "bases": NEAR_PAIR_BASES.to_vec(), "alphabet": NEAR_PAIR_ALPHABET.len()})
+    }
+}
+
 pub fn history_menu() -> Vec<Vec<u8>> {
     let mut set = std::collections::BTreeSet::new();
+    for b in NEAR_PAIR_BASES {
+        set.insert(b.as_bytes().to_vec());
+    }
     for base in ["en-Latn-US-valencia-u-ca-buddhist-t-de-h0-hybrid-x-a", "sr-Cyrl-RS-1996-fonipa", "und-419"] {
         for i in 0..=base.len() {
             set.insert(base.as_bytes()[..i].to_vec());
